@@ -114,18 +114,19 @@ func relFile(fromFile, toFile string) string {
 }
 
 func genC05(t *rapid.T) c05Case {
-	target := genModel(t, modelOpts{MaxServices: 2, Rich: rapid.Bool().Draw(t, "rich")})
+	target := genModel(t, modelOpts{MaxServices: 2, Rich: rapid.Bool().Draw(t, "rich"), Hostile: rapid.IntRange(0, 2).Draw(t, "hostile") == 0})
 	svcs := target["services"].(map[string]any)
 	name := sortedKeys(svcs)[0]
 	svc := svcs[name].(map[string]any)
 	// a service must keep its identity: no container_name clash etc. is needed, bases are only templates
 	nbases := rapid.IntRange(1, 4).Draw(t, "nbases")
 	sp := &splitter{t: t, n: nbases + 1, used: map[string]int{}, noTags: true, carryRequired: true}
-	frs := sp.splitMap("services."+name, svc)
+	rulePath := "services." + strings.ReplaceAll(name, ".", "_") // a dot in a name is not a path separator
+	frs := sp.splitMap(rulePath, svc)
 	parts := make([]map[string]any, nbases+1)
 	for i, f := range frs {
 		if f.present {
-			parts[i] = sp.respell("services."+name, f.v).(map[string]any)
+			parts[i] = sp.respell(rulePath, f.v).(map[string]any)
 		} else {
 			parts[i] = map[string]any{}
 		}
